@@ -3,7 +3,8 @@
    the hand-written model.  Statements only; proofs in Proofs/GenCode9Ok.v; notes/GENCODE9_REPORT.md. *)
 From Coq Require Import ZArith QArith String List.
 From Iso Require Import Spec.Cal Spec.Instant Model.Num Model.TimePoint Model.Forms Model.Dump Model.DriverText
-  gen.GenCode4 gen.GenCode9 Proofs.GenCode4Base Proofs.GenCode9Ok.
+  Model.Strftime gen.Grammar gen.GenCode4 gen.GenCode9 Proofs.GenCode4Base Proofs.GenCode4Stmt Proofs.GenCode4Stmt2
+  Proofs.StrftimeSpec Proofs.GenCode9Ok Proofs.GenCode9Expr.
 Import ListNotations.
 Local Open Scope string_scope.
 Local Open Scope Z_scope.
@@ -98,6 +99,63 @@ Theorem C08_code_dump_expression_with_properties_cut : forall md fuel fl p ned t
   else py_render tmpl (add_props gv props []).
 Proof. exact gen9_dump_expression_cut. Qed.
 Print Assumptions C08_code_dump_expression_with_properties_cut.
+
+
+(* ---- (2') _dump_expression_with_properties, every branch: the first stage is the model's (dump_with: p1 --
+   to_week_date / to_calendar_date, ValueError when the date does not exist), a custom zone outside the bounds of
+   TimeZone.__init__ is BadInputError, (0, 0) goes through to_utc and any other zone through
+   to_time_zone(TimeZone(h, m)) (phase 4's methods: the state is the model's point up to Qeq), and on that state
+   the property loop is the model's year bounds check followed by `expression % property_map` *)
+Theorem C08_code_dump_expression_with_properties : forall md fuel fl p ned tmpl props cz, 0 <= ned ->
+  let code := py_Dumper__dump_expression_with_properties (mops md fuel) (mkDumper ned) (rep fl p) tmpl props cz in
+  match conv9 md props p with
+  | None => code = Raise ValueError
+  | Some q =>
+    if match cz with Some (h, m) => negb (valid_zone (mkZone h m)) | None => false end
+    then code = Raise BadInputError
+    else match zone9 md q cz with
+         | None => True
+         | Some r => month_ok q -> zone_fuel md q cz fuel ->
+                     exists r', tp_equiv r' r /\ loop_result md fuel fl ned tmpl props r' code
+         end
+  end.
+Proof. exact gen9_dump_expression. Qed.
+Print Assumptions C08_code_dump_expression_with_properties.
+
+(* ---- (3) _get_expression_and_properties = Model/Dump.v expression_of: the split at "T", the "Z" / "+hh" /
+   literal "+.." / "-.." zone cases (a second sign: ValueError <-> DErr), get_time_zone, the three translated parts
+   put together; where the model has no table entry (DUnmodelled) nothing is claimed *)
+Theorem C08_code_get_expression_and_properties : forall md fuel ned fmt,
+  expr_rel (py_Dumper__get_expression_and_properties (mops md fuel) (mkDumper ned) fmt)
+           (expression_of (date_forms_of ned) TIME_FORMS ZONE_FORMS zone_of_text fmt).
+Proof. exact gen9_get_expression. Qed.
+Print Assumptions C08_code_get_expression_and_properties.
+
+(* ---- (4) TimePointDumper.strftime: the format is split and translated as Model/Strftime.v does
+   (build_d over split_format: an unknown directive is StrftimeSyntaxError), a week date is converted to a
+   calendar date, 24:00 is normalised (phase 4's methods), and the result is _dump_expression_with_properties
+   of THAT point with the model's template and property list (StrftimeSpec.strftime_unfold is the same
+   composition on the model side) *)
+Theorem C08_code_strftime_split : forall fmt, to_fitems (py_strftime_split fmt) = split_format fmt "".
+Proof. exact strftime_split_model. Qed.
+Print Assumptions C08_code_strftime_split.
+
+Theorem C08_code_strftime : forall md fuel fl p ned fmt,
+  match build_d STRFTIME_TABLE (split_format fmt "") with
+  | None => py_Dumper_strftime (mops md fuel) (mkDumper ned) (rep fl p) fmt = Raise StrftimeSyntaxError
+  | Some (tmpl, props) =>
+    match strftime_conv md p with
+    | None => py_Dumper_strftime (mops md fuel) (mkDumper ned) (rep fl p) fmt = Raise ValueError
+    | Some q =>
+      month_ok q ->
+      (Z.to_nat (if qeqb (tod_hour (ttod q)) 24 then tick_bound md q else 0) <= fuel)%nat ->
+      exists q', tp_equiv q' (normalised md q) /\
+        py_Dumper_strftime (mops md fuel) (mkDumper ned) (rep fl p) fmt =
+        py_Dumper__dump_expression_with_properties (mops md fuel) (mkDumper ned) (rep fl q') tmpl props None
+    end
+  end.
+Proof. exact gen9_strftime. Qed.
+Print Assumptions C08_code_strftime.
 
 (* ---- the generated code run on concrete points (closed vm_compute); every expected value was produced by
    the real package (/venv/bin/python, PYTHONPATH=/repo; notes/GENCODE9_REPORT.md section 6) *)
